@@ -1180,7 +1180,9 @@ PROP = Prop(
                "and the lexer rule table are re-read from the source on every run and the hand-written "
                "parser is proved equal to the table interpreter for all token lists, levels and fuel "
                "(parse_eq_table_current, parser_table_current, lexer_partitions_input, "
-               "operator_token_current, lexer_order_current).",
+               "operator_token_current, lexer_order_current). The AST importer is also judged on ONE "
+               "long-lived ASTToPymbolic instance over families of strings whose Python ASTs are "
+               "temporaries (ast-importer-history: its answer must not depend on earlier imports).",
     level_note="Python's grammar itself is not formalised in Lean: CPython's ast.parse / tokenize are "
                "the readings of record at run time (oracles), for skeleton strings of all 2- and "
                "3-operator shapes, random strings, a tuple/trailing-comma family (exact nesting of "
